@@ -1,11 +1,13 @@
 import Fx.RtDriver
 import Fx.FrontDriver
+import Fx.GenDriver
 open Fx
 
 def handle (line : String) : String :=
   match line.trimAscii.toString.splitOn " " |>.filter (· ≠ "") with
   | "rt" :: rest => rtRequest rest
   | "ast" :: rest => frontRequest rest
+  | "gen" :: rest => genRequest rest
   | _ => "bad-op"
 
 partial def loop (h : IO.FS.Stream) (out : IO.FS.Stream) : IO Unit := do
